@@ -37,7 +37,7 @@ func c14Monitor(args []string) int {
 	config.Settings.Search = savedSearchCfg
 	config.Settings.Search.UseBook = false
 	config.Settings.Search.TTSize = 2
-	fens := []string{position.StartFen, "r3k2r/p1ppqpb1/bn2pnp1/3PN3/1p2P3/2N2Q1p/PPPBBPPP/R3K2R w KQkq - 0 1", "8/2p5/3p4/KP5r/1R3p1k/8/4P1P1/8 w - - 0 1", "6k1/5ppp/8/8/8/8/5PPP/3R2K1 w - - 0 1"}
+	fens := []string{position.StartFen, "r3k2r/p1ppqpb1/bn2pnp1/3PN3/1p2P3/2N2Q1p/PPPBBPPP/R3K2R w KQkq - 0 1", "8/2p5/3p4/KP5r/1R3p1k/8/4P1P1/8 w - - 0 1", "6k1/5ppp/8/8/8/8/5PPP/3R2K1 w - - 0 1", "4k3/8/3b4/8/8/8/5PPq/6K1 w - - 0 1"}
 	wd := 15 * time.Second
 	for storm := 0; storm < n; storm++ {
 		s := search.NewSearch()
